@@ -80,7 +80,10 @@ def execute(req):
                 fam = req["family"]
                 shp = {"dims": n, "dims+2": [x + 2 for x in n], "dims+1": [x + 1 for x in n],
                        "transposed": n[::-1], "toolong": [n[0] + 3] + n[1:], "rank+1": n + [2],
-                       "rank-1": n[:-1], "flat": [7]}.get(fam)
+                       "rank-1": n[:-1], "flat": [7], "ghost_transposed": [x + 2 for x in n][::-1],
+                       "ghost_flat": [int(np.prod([x + 2 for x in n]))],
+                       "ghost_regrouped": ([int(np.prod([x + 2 for x in n])), 1] if len(n) == 1 else
+                                           [(n[0] + 2) * (n[1] + 2)] + [x + 2 for x in n[2:]] + [1])}.get(fam)
                 if fam == "scalar":
                     val = 2.0
                 elif fam == "size1":
